@@ -1087,9 +1087,13 @@ func (c *Case) checkScene(p *parsed, descs []gen.MeshDesc, b *builder, o *vh.Obs
 			}
 			diff := diffMat(exp[a.pool], exp[bb.pool])
 			if len(diff) > 0 && a.gmat == bb.gmat {
+				stored := "unreadable"
+				if got, err := p.readMat(a.gmat); err == nil {
+					stored = showMat(got)
+				}
 				return vh.Failf("material-dedup/distinct-materials-share-entry/"+diff[0],
-					"models %d and %d have materials (pool entries %d and %d) that differ in %v, but both primitives reference glTF material %d of %d: the second model silently gets the first one's %s",
-					a.model, bb.model, a.pool, bb.pool, diff, a.gmat, len(d.Materials), diff[0])
+					"models %d and %d have materials (pool entries %d and %d) that differ in %v, but both primitives reference glTF material %d of %d: the second model silently gets the first one's %s\n material of model %d: %s\n material of model %d: %s\n stored glTF material %d: %s",
+					a.model, bb.model, a.pool, bb.pool, diff, a.gmat, len(d.Materials), diff[0], a.model, showMat(exp[a.pool]), bb.model, showMat(exp[bb.pool]), a.gmat, stored)
 			}
 			must := mustMerge(a.pool, bb.pool)
 			if must && a.gmat != bb.gmat {
@@ -1210,12 +1214,51 @@ func (c *Case) checkScene(p *parsed, descs []gen.MeshDesc, b *builder, o *vh.Obs
 }
 
 func showMat(m cMat) string {
-	tex := map[string]cTex{}
-	for k, t := range m.Tex {
-		tex[k] = *t
+	def := newCMat()
+	var parts []string
+	add := func(show bool, format string, a ...any) {
+		if show {
+			parts = append(parts, fmt.Sprintf(format, a...))
+		}
 	}
-	return fmt.Sprintf("{name %q extras %s alpha %s/%v emissive %v base %v metallic %v roughness %v normalScale %v occStrength %v tex %v ext %v}",
-		m.Name, m.Extras, m.AlphaMode, m.AlphaCutoff, m.Emissive, m.BaseColor, m.Metallic, m.Roughness, m.NormalScale, m.OccStrength, tex, m.Ext)
+	add(true, "name %q", m.Name)
+	add(m.Extras != "", "extras %s", m.Extras)
+	add(m.AlphaMode != def.AlphaMode || m.AlphaCutoff != def.AlphaCutoff, "alpha %s/%v", m.AlphaMode, m.AlphaCutoff)
+	add(!floatsNear(m.Emissive, def.Emissive), "emissive %v", m.Emissive)
+	add(!floatsNear(m.BaseColor, def.BaseColor), "baseColor %v", m.BaseColor)
+	add(m.Metallic != 1, "metallic %v", m.Metallic)
+	add(m.Roughness != 1, "roughness %v", m.Roughness)
+	add(m.NormalScale != 1, "normalScale %v", m.NormalScale)
+	add(m.OccStrength != 1, "occlusionStrength %v", m.OccStrength)
+	for _, k := range sortedKeys(m.Tex) {
+		add(true, "%s %s", k, showTex(*m.Tex[k]))
+	}
+	for _, id := range sortedKeys(m.Ext) {
+		var f []string
+		for _, k := range sortedKeys(m.Ext[id]) {
+			if t, ok := m.Ext[id][k].(cTex); ok {
+				f = append(f, k+" "+showTex(t))
+			} else {
+				f = append(f, fmt.Sprintf("%s %v", k, m.Ext[id][k]))
+			}
+		}
+		add(true, "%s{%s}", id, strings.Join(f, ", "))
+	}
+	return "{" + strings.Join(parts, "; ") + "}"
+}
+
+func showTex(t cTex) string {
+	s := fmt.Sprintf("<%s", t.URI)
+	if t.Mag != 0 || t.Min != 0 || t.WrapS != 10497 || t.WrapT != 10497 {
+		s += fmt.Sprintf(" sampler %d/%d/%d/%d", t.Mag, t.Min, t.WrapS, t.WrapT)
+	}
+	if d := defaultTex(t.URI); t.Off != d.Off || t.Scl != d.Scl || t.Rot != d.Rot || t.XTexCoord != d.XTexCoord {
+		s += fmt.Sprintf(" transform offset %v rotation %v scale %v texCoord %d", t.Off, t.Rot, t.Scl, t.XTexCoord)
+	}
+	if t.TexCoord != 0 {
+		s += fmt.Sprintf(" texCoord %d", t.TexCoord)
+	}
+	return s + ">"
 }
 
 // expectRefs: textureInfo location -> texture pool entry, for the textures a material hands over.
@@ -1281,5 +1324,5 @@ func (p *parsed) readRefs(mi int) (map[string]int, error) {
 }
 
 func TestC06(t *testing.T) {
-	vh.Drive(t, vh.Spec[Case]{Name: "scene", Quick: 40000, Thorough: 800000, Gen: genCase, Run: runCase})
+	vh.Drive(t, vh.Spec[Case]{Name: "scene", Quick: 60000, Thorough: 1200000, Gen: genCase, Run: runCase})
 }
